@@ -139,7 +139,7 @@ def run(ctx):
     keys = [STD_D, "1", "2", hex(N - 2)[2:], "00ff".lstrip("0"), hex(rnd.getrandbits(255))[2:]] + [hex(d)[2:] for d, _, _ in special[:6]]
     # d with leading zero bytes
     keys.append(hex(rnd.getrandbits(236))[2:])
-    ids = [{"kind": "default"}, {"kind": "absent"}, {"kind": "len", "n": 1}, {"kind": "len", "n": 8191}]
+    ids = [{"kind": "default"}, {"kind": "absent"}, {"kind": "len", "n": 1}, {"kind": "len", "n": 8191}, {"kind": "empty"}]
     mlens = [0, 1, 55, 56, 64, 65, 4096] + ([65536] if thorough else [])
     cases = [{"kind": "sign", "d": STD_D, "id": {"kind": "default"}, "mf": 9, "mlen": 0, "ks": [STD_K]}]
     for i, dk in enumerate(keys):
@@ -156,6 +156,10 @@ def run(ctx):
         cases.append({"kind": "sign", "d": keys[5], "id": {"kind": "default"}, "mf": 0, "mlen": ml, "ks": [hex(rnd.randrange(1, N))[2:]]})
     for idn in (53, 54, 62, 117):
         cases.append({"kind": "sign", "d": keys[5], "id": {"kind": "len", "n": idn}, "mf": 0, "mlen": 1, "ks": [hex(rnd.randrange(1, N))[2:]]})
+    # sparse scalars (long runs of zero digits in any recoding) as private key and as nonce
+    for sp in (hex((1 << 200) + 1)[2:], hex((1 << 255) - (1 << 130))[2:]):
+        cases.append({"kind": "sign", "d": sp, "id": {"kind": "default"}, "mf": 0, "mlen": 5, "ks": [hex(rnd.randrange(1, N))[2:]]})
+        cases.append({"kind": "sign", "d": keys[5], "id": {"kind": "default"}, "mf": 0, "mlen": 5, "ks": [sp]})
     rows = tlc_table(ctx, cases, "sign")
     std = rows_by(rows, cases[0])
     if std["expect"]["r"] != "f5a03b0648d2c4630eeac513e1bb81a15944da3827d5b74143ac7eaceee720b3" or \
